@@ -206,6 +206,12 @@ mutual
     | _, _ => []
 end
 
+/-- `DbType::db_id()`: the `db_id` field of a user value (top level) -/
+def uvalId : UValList → Option Int
+  | .nil => none
+  | .cons (.id i) _ => i
+  | .cons _ t => uvalId t
+
 def DB_ELEMENT_ID : List Nat := [100, 98, 95, 101, 108, 101, 109, 101, 110, 116, 95, 105, 100]
 
 def typeValues (τ : TypeDesc) (v : UValList) : List (Val × Val) :=
@@ -325,11 +331,21 @@ def keyPos (keys : List Val) (k : Val) : Option Nat :=
   | [] => none
   | x :: t => if valEq x k then some 0 else (keyPos t k).map (· + 1)
 
+/-- `sort_by_key(|(pos, _)| pos)` (a stable sort), as insertion sort from the right -/
+def sortByPos : List (Nat × (Val × Val)) → List (Nat × (Val × Val))
+  | [] => []
+  | x :: t => insertByPos' x (sortByPos t)
+where
+  /-- insert `x` (which precedes everything in the already sorted tail) before equal positions -/
+  insertByPos' (x : Nat × (Val × Val)) : List (Nat × (Val × Val)) → List (Nat × (Val × Val))
+    | [] => [x]
+    | y :: t => if y.1 < x.1 then y :: insertByPos' x t else x :: y :: t
+
 /-- `DbKeyValues::values_by_keys`: the pairs whose key is requested, stably sorted by the position
     of the key in `keys` -/
 def valuesByKeys (kvs : List (Val × Val)) (keys : List Val) : List (Val × Val) :=
   let tagged := kvs.filterMap fun kv => (keyPos keys kv.1).map fun p => (p, kv)
-  (tagged.mergeSort fun a b => a.1 ≤ b.1).map (·.2)
+  (sortByPos tagged).map (·.2)
 
 /-- `SelectValuesQuery::process` for `QueryIds::Ids([id])` -/
 def Db.select (db : Db) (keys : Option (List Val)) (id : Int) : Outcome (List (Val × Val)) :=
